@@ -7,11 +7,13 @@
 //
 // Input : ndjson cases {"id":n,"keep":bool,"in":[bytes]}
 // Output: two ndjson files with one line per case each:
-//   trace (what TLC reads, see spec/C06Trace.tla): {keep, panic, err, outwf, ein:[ev], eout:[ev]}
-//   meta  (what the driver script reads):          {id, keep, panic, err, inwf, inwhy, outwf, outwhy, rerr, nin, out:[bytes]}
-//   ev = {k:"S"|"E"|"T"|"P"|"D"|"C", d:depth, name:[bytes], attrs:[{n:[bytes], v:[atoms]}], data:[atoms]}
-//   text atoms: byte c from character data, c+1000 when the byte comes from a CDATA section
-//   attribute value atoms: literal byte c, c+1000 when produced by a character/entity reference
+//
+//	trace (what TLC reads, see spec/C06Trace.tla): {keep, panic, err, outwf, ein:[ev], eout:[ev]}
+//	meta  (what the driver script reads):          {id, keep, panic, err, inwf, inwhy, outwf, outwhy, rerr, nin, out:[bytes]}
+//	ev = {k:"S"|"E"|"T"|"P"|"D"|"C", d:depth, name:[bytes], attrs:[{n:[bytes], v:[atoms]}], data:[atoms]}
+//	text atoms: byte c from character data, c+1000 when the byte comes from a CDATA section
+//	attribute value atoms: literal byte c, c+1000 when produced by a character/entity reference
+//
 // usage: c06 <cases.ndjson> <trace.ndjson> <meta.ndjson>      |      c06 -show [-keep] <file or ->   (human readable)
 package main
 
@@ -315,7 +317,6 @@ func project(src []byte) (evs []Ev, wf bool, why string, rerr string) {
 	d.CharsetReader = passthrough
 	d.Entity = ents
 	depth, roots, doctypes := 0, 0, 0
-	synth := false
 	for {
 		start := d.InputOffset()
 		t, err := d.RawToken()
@@ -357,11 +358,9 @@ func project(src []byte) (evs []Ev, wf bool, why string, rerr string) {
 			}
 			evs = append(evs, Ev{K: "S", D: depth, Name: qname(v.Name), Attrs: attrs, Data: []int{}})
 			depth++
-			synth = bytes.HasSuffix(raw, []byte("/>"))
 		case xml.EndElement:
 			depth--
 			evs = append(evs, Ev{K: "E", D: depth, Name: qname(v.Name), Attrs: []Attr{}, Data: []int{}})
-			_ = synth
 		case xml.CharData:
 			hard := bytes.HasPrefix(raw, []byte("<![CDATA["))
 			if depth == 0 {
